@@ -1095,6 +1095,53 @@ impl Exec {
                     }
                 }
             }
+            "server" => {
+                // (server seed (sends ok|err|panic ...) (events (at t kind) ...) t_end)
+                use crate::server_suite::{Ev, SendRes};
+                let seed = a.first()?.nat()? == 1;
+                let script: Vec<SendRes> = a.get(1)?.tagged("sends")?.iter().map(|x| match x.atom() {
+                    Some("ok") => Some(SendRes::Ok),
+                    Some("err") => Some(SendRes::Err),
+                    Some("panic") => Some(SendRes::Panic),
+                    _ => None,
+                }).collect::<Option<_>>()?;
+                let mut events = Vec::new();
+                for e in a.get(2)?.tagged("events")? {
+                    let f = e.tagged("at")?;
+                    let t = f.first()?.nat()?;
+                    let ev = match f.get(1)?.atom()? {
+                        "syn1" => Ev::Syn(true),
+                        "syn0" => Ev::Syn(false),
+                        "ack" => Ev::Ack,
+                        "junk" => Ev::Junk,
+                        "fatal" => Ev::Fatal,
+                        "gossip" => Ev::Gossip,
+                        "shutdown" => Ev::Shutdown,
+                        "lock" => Ev::Lock,
+                        _ => return None,
+                    };
+                    events.push((t, ev));
+                }
+                let t_end = a.get(3)?.nat()?;
+                let has_panic = script.contains(&SendRes::Panic);
+                let fatal_or_shutdown = events.iter().any(|e| matches!(e.1, Ev::Fatal | Ev::Shutdown));
+                let out = crate::server_suite::run(seed, events, script.clone(), t_end);
+                let l = plist(
+                    "server",
+                    [
+                        (seed as u8).to_string(),
+                        cmd_to_string(a.get(1)?),
+                        plist("events", out.model_events.iter().map(|x| x.to_string())),
+                    ],
+                );
+                if out.deadlock {
+                    self.monitor_hit("C19", "deadlock", "user access to the shared state did not complete");
+                }
+                if !has_panic && !fatal_or_shutdown && out.status != "running" {
+                    self.monitor_hit("C19", "loop-died", &format!("the gossip loop terminated ({}) although no fatal receive error, shutdown or panic was scripted", out.status));
+                }
+                Some((l, plist("srv", [out.status.to_string(), out.heartbeat.to_string(), out.sends.to_string()])))
+            }
             "sub" => {
                 let slot = a.first()?.nat()?;
                 let idx = a.get(1)?.nat()?;
